@@ -7,6 +7,8 @@ import Mathlib.Tactic.FieldSimp
 import Mathlib.Tactic.Push
 import Mathlib.Data.List.Nodup
 import Mathlib.Data.List.Perm.Basic
+import Mathlib.Tactic.Positivity
+import HdVerif.Proofs.RatFloor
 /-! Helper lemmas for C03 (`Props/C03.lean`): the Python-slice specification of the translated
 `stdSliceIndices` (T2), vector algebra over ℚ (Gram / Cramer identities, normal of an orthonormal frame),
 minimum/maximum folds, and the read-back of positions lying on a line (`volumePositions_line`). -/
@@ -616,22 +618,25 @@ structure StackOK (st : Stack) : Prop where
   psRow : 0 < st.psRow
   psCol : 0 < st.psCol
 
-/-- the affine read back for frames on a line, before any slicing -/
+/-- the affine read back for frames at positions `P e` with returned spacing `sp`, before any slicing -/
+def lineAffP (st : Stack) (P : Int → V3) (sp : Rat) (emin : Int) : Aff :=
+  ⟨smul sp (normal st.rowCos st.colCos), smul st.psRow st.colCos, smul st.psCol st.rowCos, P emin⟩
+
+/-- … for frames exactly on a line -/
 def lineAff (st : Stack) (base : V3) (sp : Rat) (emin : Int) : Aff :=
-  ⟨smul sp (normal st.rowCos st.colCos), smul st.psRow st.colCos, smul st.psCol st.rowCos,
-    linePos (normal st.rowCos st.colCos) base sp emin⟩
+  lineAffP st (linePos (normal st.rowCos st.colCos) base sp) sp emin
 
 /-- **Stack recognition for frames on a line** with any accepted slice request. -/
-theorem stackedGeometry_line_gen (am : Bool) (st : Stack) (hst : StackOK st) (base : V3) (sp : Rat) (hsp : 0 < sp)
-    (es : List Int) (hes : es ≠ []) (hpos : st.pos = es.map (linePos (normal st.rowCos st.colCos) base sp))
+theorem stackedGeometry_line_gen (am : Bool) (st : Stack) (hst : StackOK st) (P : Int → V3) (sp : Rat)
+    (es : List Int) (hes : es ≠ []) (hpos : st.pos = es.map P)
     (hvp : ∃ emin ∈ es, (∀ e ∈ es, emin ≤ e) ∧
-      volumePositions (es.map (linePos (normal st.rowCos st.colCos) base sp)) st.rowCos st.colCos st.hint am
+      volumePositions (es.map P) st.rowCos st.colCos st.hint am
         = .ok (some (sp, es.map (fun e => e - emin))))
     (rows cols : Int) :
     ∃ emin ∈ es, ∃ emax ∈ es, (∀ e ∈ es, emin ≤ e ∧ e ≤ emax) ∧
       (∀ (ss se : Option Int) (asIdx : Bool) (s e : Int), sliceSpec ss se (emax - emin + 1) asIdx = some (s, e) →
         stackedGeometry st rows cols am ss se asIdx
-          = .ok { aff := (lineAff st base sp emin).shift s 0 0, n := e - s, rows := rows, cols := cols,
+          = .ok { aff := (lineAffP st P sp emin).shift s 0 0, n := e - s, rows := rows, cols := cols,
                   frames := framePositions (es.map (fun x => x - emin)) s e }) ∧
       (∀ (ss se : Option Int) (asIdx : Bool), sliceSpec ss se (emax - emin + 1) asIdx = none →
         ∃ k, stackedGeometry st rows cols am ss se asIdx = .error k) := by
@@ -656,7 +661,7 @@ theorem stackedGeometry_line_gen (am : Bool) (st : Stack) (hst : StackOK st) (ba
   obtain ⟨oi, hoi, hget⟩ := indexOf?_mem 0 (es.map (fun x => x - emin)) (List.mem_map.mpr ⟨emin, hemin, by ring⟩)
   rw [hoi]
   simp only
-  have hpo : (es.map (linePos (normal st.rowCos st.colCos) base sp))[oi]? = some (linePos (normal st.rowCos st.colCos) base sp emin) := by
+  have hpo : (es.map P)[oi]? = some (P emin) := by
     rw [List.getElem?_map] at hget ⊢
     cases hx : es[oi]? with
     | none => rw [hx] at hget; simp at hget
@@ -684,7 +689,7 @@ theorem stackedGeometry_line (st : Stack) (hst : StackOK st) (base : V3) (sp : R
                   frames := framePositions (es.map (fun x => x - emin)) s e }) ∧
       (∀ (ss se : Option Int) (asIdx : Bool), sliceSpec ss se (emax - emin + 1) asIdx = none →
         ∃ k, stackedGeometry st rows cols true ss se asIdx = .error k) :=
-  stackedGeometry_line_gen true st hst base sp hsp es hes hpos
+  stackedGeometry_line_gen true st hst (linePos (normal st.rowCos st.colCos) base sp) sp es hes hpos
     (by rw [hhint]; exact volumePositions_line st.rowCos st.colCos base sp hsp hst.unitN es hes) rows cols
 
 /-- C04's per-argument specification of T3 and the Python-slice specification say the same for non-empty regions -/
@@ -704,10 +709,10 @@ theorem stdRowCol_idx_spec (rs re cs ce : Option Int) (rows cols : Int) (ai : Bo
 
 /-- **Sub-volume of a stack on a line**: an accepted request returns the block it means, with the affine
 translated to the position of the block's first voxel. -/
-theorem getVolumeStack_line_gen (am : Bool) (k : Kind) (st : Stack) (hst : StackOK st) (base : V3) (sp : Rat) (hsp : 0 < sp)
-    (es : List Int) (hes : es ≠ []) (hpos : st.pos = es.map (linePos (normal st.rowCos st.colCos) base sp))
+theorem getVolumeStack_line_gen (am : Bool) (k : Kind) (st : Stack) (hst : StackOK st) (P : Int → V3) (sp : Rat)
+    (es : List Int) (hes : es ≠ []) (hpos : st.pos = es.map P)
     (hvp : ∃ emin ∈ es, (∀ e ∈ es, emin ≤ e) ∧
-      volumePositions (es.map (linePos (normal st.rowCos st.colCos) base sp)) st.rowCos st.colCos st.hint am
+      volumePositions (es.map P) st.rowCos st.colCos st.hint am
         = .ok (some (sp, es.map (fun e => e - emin))))
     (rows cols : Int) :
     ∃ emin ∈ es, ∃ emax ∈ es, (∀ e ∈ es, emin ≤ e ∧ e ≤ emax) ∧
@@ -716,7 +721,7 @@ theorem getVolumeStack_line_gen (am : Bool) (k : Kind) (st : Stack) (hst : Stack
         sliceSpec rq.rowStart rq.rowEnd rows rq.asIdx = some (s1, e1) →
         sliceSpec rq.colStart rq.colEnd cols rq.asIdx = some (s2, e2) →
         getVolumeStack k st rows cols am rq
-          = .ok { aff := (lineAff st base sp emin).shift s0 s1 s2, n := e0 - s0, rows := e1 - s1, cols := e2 - s2,
+          = .ok { aff := (lineAffP st P sp emin).shift s0 s1 s2, n := e0 - s0, rows := e1 - s1, cols := e2 - s2,
                   frames := framePositions (es.map (fun x => x - emin)) s0 e0, rowFirst := s1, colFirst := s2 }) ∧
       (∀ (rq : Request),
         (sliceSpec rq.sliceStart rq.sliceEnd (emax - emin + 1) rq.asIdx = none ∨
@@ -724,7 +729,7 @@ theorem getVolumeStack_line_gen (am : Bool) (k : Kind) (st : Stack) (hst : Stack
          sliceSpec rq.colStart rq.colEnd cols rq.asIdx = none) →
         ∃ kk, getVolumeStack k st rows cols am rq = .error kk) := by
   obtain ⟨emin, hemin, emax, hemax, hb, hsg, hsgr⟩ :=
-    stackedGeometry_line_gen am st hst base sp hsp es hes hpos hvp rows cols
+    stackedGeometry_line_gen am st hst P sp es hes hpos hvp rows cols
   refine ⟨emin, hemin, emax, hemax, hb, ?_, ?_⟩
   rotate_left
   · intro rq hbad
@@ -793,7 +798,7 @@ theorem getVolumeStack_line (k : Kind) (st : Stack) (hst : StackOK st) (base : V
          sliceSpec rq.rowStart rq.rowEnd rows rq.asIdx = none ∨
          sliceSpec rq.colStart rq.colEnd cols rq.asIdx = none) →
         ∃ kk, getVolumeStack k st rows cols true rq = .error kk) :=
-  getVolumeStack_line_gen true k st hst base sp hsp es hes hpos
+  getVolumeStack_line_gen true k st hst (linePos (normal st.rowCos st.colCos) base sp) sp es hes hpos
     (by rw [hhint]; exact volumePositions_line st.rowCos st.colCos base sp hsp hst.unitN es hes) rows cols
 
 /-! ## volume → stored stack → volume -/
@@ -863,7 +868,7 @@ theorem lineAff_apply (st : Stack) (base : V3) (sp : Rat) (emin v r c : Int) :
     (lineAff st base sp emin).apply v r c =
       add (add (linePos (normal st.rowCos st.colCos) base sp (emin + v)) (smul ((r : Rat) * st.psRow) st.colCos))
         (smul ((c : Rat) * st.psCol) st.rowCos) := by
-  unfold lineAff Aff.apply linePos
+  unfold lineAff lineAffP Aff.apply linePos
   generalize normal st.rowCos st.colCos = n
   obtain ⟨nx, ny, nz⟩ := n
   obtain ⟨bx, b_y, bz⟩ := base
@@ -1746,6 +1751,324 @@ theorem tiled_store_geometry {g : Geom} (hg : Admissible g) :
   simp only [add, smul, V3.mk.injEq]
   push_cast
   refine ⟨by ring, by ring, by ring⟩
+
+
+/-! ## robustness of the placement against rounding of positions and spacing -/
+
+/-- Cauchy–Schwarz over ℚ³ (Lagrange identity) -/
+theorem dot_sq_le (a b : V3) : dot a b * dot a b ≤ dot a a * dot b b := by
+  have h : dot a a * dot b b - dot a b * dot a b = dot (cross a b) (cross a b) := by
+    cases a; cases b; simp only [dot, cross]; ring
+  have h2 : 0 ≤ dot (cross a b) (cross a b) := by
+    cases hc : cross a b with
+    | mk x y z => simp only [dot]; nlinarith [mul_self_nonneg x, mul_self_nonneg y, mul_self_nonneg z]
+  linarith
+
+theorem abs_le_of_sq_le {x b : Rat} (hb : 0 ≤ b) (h : x * x ≤ b * b) : -b ≤ x ∧ x ≤ b := by
+  constructor <;> nlinarith [sq_nonneg (x - b), sq_nonneg (x + b)]
+
+/-- find? on positions with injective distances -/
+theorem find_mono (n : V3) (P : Int → V3) (hinj : ∀ e e', dot n (P e) = dot n (P e') → e = e') (es : List Int)
+    (e : Int) (he : e ∈ es) :
+    (es.map P).find? (fun p => dot n p == dot n (P e)) = some (P e) := by
+  cases h : (es.map P).find? (fun p => dot n p == dot n (P e)) with
+  | none =>
+    rw [List.find?_eq_none] at h
+    have := h (P e) (List.mem_map.mpr ⟨e, he, rfl⟩)
+    simp at this
+  | some p1 =>
+    have hp := List.find?_some h
+    have hm := List.mem_of_find?_eq_some h
+    obtain ⟨e', _, rfl⟩ := List.mem_map.mp hm
+    simp only [beq_iff_eq] at hp
+    rw [hinj e' e hp]
+
+/-- extremes for positions whose distance along `n` increases strictly with the multiple -/
+theorem extremes_mono (n : V3) (P : Int → V3) (hmono : ∀ e e', e < e' → dot n (P e) < dot n (P e')) (e0 : Int) (t : List Int) :
+    ∃ emin ∈ e0 :: t, ∃ emax ∈ e0 :: t, (∀ e ∈ e0 :: t, emin ≤ e ∧ e ≤ emax) ∧
+      extremes ((e0 :: t).map P) n (P e0) = some (dot n (P emin), dot n (P emax), P emin, P emax) := by
+  have hinj : ∀ e e', dot n (P e) = dot n (P e') → e = e' := by
+    intro e e' h
+    rcases lt_trichotomy e e' with hl | he | hg
+    · have := hmono e e' hl; linarith
+    · exact he
+    · have := hmono e' e hg; linarith
+  have hle : ∀ e e', dot n (P e) ≤ dot n (P e') → e ≤ e' := by
+    intro e e' h
+    by_contra hc
+    have := hmono e' e (by omega); linarith
+  set es := e0 :: t with hes
+  set f : Int → Rat := fun e => dot n (P e) with hf
+  have hds : (es.map P).map (dot n) = es.map f := by rw [List.map_map]; rfl
+  have hmem := listMin_mem (f e0) (es.map f)
+  have hmem' : listMin (f e0) (es.map f) ∈ es.map f := by
+    rcases List.mem_cons.mp hmem with h | h
+    · rw [h]; exact List.mem_map.mpr ⟨e0, by simp [hes], rfl⟩
+    · exact h
+  obtain ⟨emin, hemin, hmin⟩ := List.mem_map.mp hmem'
+  have hlemin := listMin_le (f e0) (es.map f)
+  have hMmem := listMax_mem (f e0) (es.map f)
+  have hMmem' : listMax (f e0) (es.map f) ∈ es.map f := by
+    rcases List.mem_cons.mp hMmem with h | h
+    · rw [h]; exact List.mem_map.mpr ⟨e0, by simp [hes], rfl⟩
+    · exact h
+  obtain ⟨emax, hemax, hmax⟩ := List.mem_map.mp hMmem'
+  have hge := listMax_ge (f e0) (es.map f)
+  refine ⟨emin, hemin, emax, hemax, ?_, ?_⟩
+  · intro e he
+    have h1 := hlemin (f e) (List.mem_cons_of_mem _ (List.mem_map.mpr ⟨e, he, rfl⟩))
+    have h2 := hge (f e) (List.mem_cons_of_mem _ (List.mem_map.mpr ⟨e, he, rfl⟩))
+    rw [← hmin] at h1
+    rw [← hmax] at h2
+    exact ⟨hle _ _ h1, hle _ _ h2⟩
+  · unfold extremes
+    simp only [hds]
+    have e1 : listMin (dot n (P e0)) (es.map f) = dot n (P emin) := hmin.symm
+    have e2 : listMax (dot n (P e0)) (es.map f) = dot n (P emax) := hmax.symm
+    rw [e1, e2, find_mono n P hinj es emin hemin, find_mono n P hinj es emax hemax]
+
+
+/-- recorded positions: the ideal position on the line plus a rounding error of length ≤ sp/1000 that depends on
+the plane only -/
+structure Pert (n base : V3) (sp : Rat) (P : Int → V3) : Prop where
+  near : ∀ e, ∃ ξ : V3, P e = add (linePos n base sp e) ξ ∧ dot ξ ξ ≤ (sp / 1000) * (sp / 1000)
+
+theorem dot_add_right (a b c : V3) : dot a (add b c) = dot a b + dot a c := by
+  cases a; cases b; cases c; simp only [dot, add]; ring
+
+theorem pert_dist {n base : V3} {sp : Rat} {P : Int → V3} (hsp : 0 < sp) (hn : dot n n = 1) (hP : Pert n base sp P) (e : Int) :
+    ∃ η : Rat, dot n (P e) = dot n base + (e : Rat) * sp + η ∧ -(sp / 1000) ≤ η ∧ η ≤ sp / 1000 := by
+  obtain ⟨ξ, hξ, hb⟩ := hP.near e
+  refine ⟨dot n ξ, ?_, ?_⟩
+  · rw [hξ, dot_add_right, dot_linePos _ _ _ _ hn]
+  · have h1 := dot_sq_le n ξ
+    rw [hn, one_mul] at h1
+    exact abs_le_of_sq_le (by positivity) (le_trans h1 hb)
+
+theorem pert_mono {n base : V3} {sp : Rat} {P : Int → V3} (hsp : 0 < sp) (hn : dot n n = 1) (hP : Pert n base sp P)
+    (e e' : Int) (h : e < e') : dot n (P e) < dot n (P e') := by
+  obtain ⟨η, h1, h2, h3⟩ := pert_dist hsp hn hP e
+  obtain ⟨η', h1', h2', h3'⟩ := pert_dist hsp hn hP e'
+  rw [h1, h1']
+  have : (e : Rat) + 1 ≤ e' := by exact_mod_cast (by omega : e + 1 ≤ e')
+  nlinarith
+
+theorem round_near (x : Rat) (k : Int) (h1 : (k : Rat) - 1 / 2 < x) (h2 : x < (k : Rat) + 1 / 2) : roundHalfEven x = k := by
+  unfold roundHalfEven
+  by_cases hx : (k : Rat) ≤ x
+  · have hf : x.floor = k := rat_floor_eq x k hx (by linarith)
+    simp only [hf]
+    have : x - (k : Rat) < 1 / 2 := by linarith
+    rw [if_pos this]
+  · have hx' : x < k := not_le.mp hx
+    have hf : x.floor = k - 1 := rat_floor_eq x (k - 1) (by push_cast; linarith) (by push_cast; linarith)
+    simp only [hf]
+    have h3 : ¬ (x - (((k - 1 : Int)) : Rat) < 1 / 2) := by push_cast; linarith
+    have h4 : 1 / 2 < x - (((k - 1 : Int)) : Rat) := by push_cast; linarith
+    rw [if_neg h3, if_pos h4]
+    ring
+
+
+theorem rabs_le_iff (x b : Rat) : rabs x ≤ b ↔ -b ≤ x ∧ x ≤ b := by
+  unfold rabs; split <;> constructor <;> intro h <;> (try constructor) <;> (first | linarith | (obtain ⟨h1, h2⟩ := h; linarith))
+
+theorem rabs_intCast_nonneg (k : Int) (hk : 0 ≤ k) : rabs (k : Rat) = k := by
+  unfold rabs
+  have : ¬ ((k : Rat) < 0) := by
+    have : (0 : Rat) ≤ k := by exact_mod_cast hk
+    linarith
+  rw [if_neg this]
+
+/-- one multiple: the distance of plane `e` from the first plane, divided by the (rounded) spacing, rounds to
+`e − emin` and passes the regularity test -/
+theorem multiple_pert {n base : V3} {sp : Rat} {P : Int → V3} (hsp : 0 < sp) (hn : dot n n = 1) (hP : Pert n base sp P)
+    (sp' : Rat) (h1 : sp * (999 / 1000) ≤ sp') (h2 : sp' ≤ sp * (1001 / 1000)) (emin e : Int) (hk0 : emin ≤ e)
+    (hk1 : e - emin ≤ 100) :
+    roundHalfEven ((dot n (P e) - dot n (P emin)) / sp') = e - emin ∧
+    isClose ((dot n (P e) - dot n (P emin)) / sp') ((e - emin : Int) : Rat) tolSpacing = true := by
+  have hsp' : 0 < sp' := by nlinarith
+  by_cases hz : e = emin
+  · subst hz
+    simp only [sub_self, zero_div, Int.cast_zero]
+    refine ⟨?_, ?_⟩
+    · have := round_intCast 0; simpa using this
+    · exact isClose_self 0
+  · have hk : 1 ≤ e - emin := by omega
+    obtain ⟨η, hd, hη1, hη2⟩ := pert_dist hsp hn hP e
+    obtain ⟨η0, hd0, hη01, hη02⟩ := pert_dist hsp hn hP emin
+    set k : Int := e - emin with hkdef
+    set x : Rat := (dot n (P e) - dot n (P emin)) / sp' with hx
+    have hkq : (k : Rat) = (e : Rat) - emin := by rw [hkdef]; push_cast; ring
+    have hk1q : (1 : Rat) ≤ k := by exact_mod_cast hk
+    have hk100 : (k : Rat) ≤ 100 := by exact_mod_cast hk1
+    have key : (x - k) * sp' = (k : Rat) * (sp - sp') + (η - η0) := by
+      rw [hx, hd, hd0, hkq]
+      field_simp
+      ring
+    -- |x − k| ≤ (k + 2)/999
+    have hub : x - k ≤ ((k : Rat) + 2) / 999 := by
+      have : (x - k) * sp' ≤ (((k : Rat) + 2) / 999) * sp' := by
+        rw [key]; nlinarith
+      exact le_of_mul_le_mul_right this hsp'
+    have hlb : -(((k : Rat) + 2) / 999) ≤ x - k := by
+      have : (-(((k : Rat) + 2) / 999)) * sp' ≤ (x - k) * sp' := by
+        rw [key]; nlinarith
+      exact le_of_mul_le_mul_right this hsp'
+    refine ⟨?_, ?_⟩
+    · apply round_near <;> linarith
+    · unfold isClose tolSpacing
+      rw [rabs_intCast_nonneg k (by omega), decide_eq_true_eq, rabs_le_iff]
+      constructor <;> linarith
+
+
+theorem sub_add_linePos (n base : V3) (sp : Rat) (e e' : Int) (ξ ξ' : V3) :
+    sub (add (linePos n base sp e) ξ) (add (linePos n base sp e') ξ') = add (smul (((e : Rat) - e') * sp) n) (sub ξ ξ') := by
+  cases n; cases base; cases ξ; cases ξ'
+  simp only [linePos, add, smul, sub, V3.mk.injEq]
+  refine ⟨by ring, by ring, by ring⟩
+
+theorem dot_sub_self_le (a b : V3) : dot (sub a b) (sub a b) ≤ 2 * dot a a + 2 * dot b b := by
+  cases a with | mk ax ay az => cases b with | mk bx b_y bz =>
+  simp only [dot, sub]
+  nlinarith [sq_nonneg (ax + bx), sq_nonneg (ay + b_y), sq_nonneg (az + bz)]
+
+/-- the span between the extreme recorded positions is still along the normal within the library's tolerance -/
+theorem isPerp_pert {n base : V3} {sp : Rat} {P : Int → V3} (hsp : 0 < sp) (hn : dot n n = 1) (hP : Pert n base sp P)
+    (emin emax : Int) (hlt : emin < emax) : isPerp n (sub (P emax) (P emin)) = true := by
+  obtain ⟨ξ2, h2, b2⟩ := hP.near emax
+  obtain ⟨ξ1, h1, b1⟩ := hP.near emin
+  rw [h2, h1, sub_add_linePos]
+  set a : Rat := ((emax : Rat) - emin) * sp with ha
+  set w := sub ξ2 ξ1 with hw
+  have hK : (1 : Rat) ≤ (emax : Rat) - emin := by
+    have : (emin : Rat) + 1 ≤ emax := by exact_mod_cast (by omega : emin + 1 ≤ emax)
+    linarith
+  have ha1 : sp ≤ a := by rw [ha]; nlinarith
+  have hW : dot w w ≤ 4 * ((sp / 1000) * (sp / 1000)) := by
+    have := dot_sub_self_le ξ2 ξ1
+    rw [← hw] at this
+    linarith
+  have hb := dot_sq_le n w
+  rw [hn, one_mul] at hb
+  -- |n·w| ≤ 2 sp / 1000
+  have hbb : -(2 * (sp / 1000)) ≤ dot n w ∧ dot n w ≤ 2 * (sp / 1000) :=
+    abs_le_of_sq_le (by positivity) (by nlinarith)
+  have e1 : dot n (add (smul a n) w) = a + dot n w := by
+    rw [dot_add_right]
+    congr 1
+    cases n; simp only [dot, smul] at *; linear_combination a * hn
+  have e2 : dot (add (smul a n) w) (add (smul a n) w) = a * a + 2 * a * dot n w + dot w w := by
+    cases hn' : n with | mk nx ny nz => cases hw' : w with | mk wx wy wz =>
+    rw [hn'] at hn
+    simp only [dot, smul, add] at *
+    linear_combination (a * a) * hn
+  unfold isPerp
+  rw [e1, e2]
+  set b := dot n w with hbdef
+  set W := dot w w with hWdef
+  have hs2 : 0 < sp * sp := by positivity
+  have hq : sp * sp * ((499 / 500) * (499 / 500)) ≤ (a + b) * (a + b) := by
+    have : sp * (499 / 500) ≤ a + b := by linarith [hbb.1]
+    nlinarith
+  have hm : a * a + 2 * a * b + W = (a + b) * (a + b) + (W - b * b) := by ring
+  rw [hm]
+  set Q := (a + b) * (a + b) with hQ
+  have hbn := mul_self_nonneg b
+  rw [Bool.and_eq_true, decide_eq_true_eq, decide_eq_true_eq]
+  unfold tolPerp
+  constructor
+  · linarith
+  · linarith
+
+
+/-- **Placement is robust against rounding**: recorded positions within `sp/1000` of the ideal positions
+`base + (e·sp)·n`, recorded spacing `sp'` within 0.1 % of `sp`, at most 101 slots: the volume positions are still
+`e − min e` (and the spacing returned is the recorded one). -/
+theorem volumePositions_robust (rowCos colCos base : V3) (sp : Rat) (hsp : 0 < sp)
+    (hn : dot (normal rowCos colCos) (normal rowCos colCos) = 1) (P : Int → V3) (hP : Pert (normal rowCos colCos) base sp P)
+    (sp' : Rat) (h1 : sp * (999 / 1000) ≤ sp') (h2 : sp' ≤ sp * (1001 / 1000))
+    (es : List Int) (hes : es ≠ []) (hspan : ∀ e ∈ es, ∀ e' ∈ es, e' - e ≤ 100) :
+    ∃ emin ∈ es, (∀ e ∈ es, emin ≤ e) ∧
+      volumePositions (es.map P) rowCos colCos (some sp') true = .ok (some (sp', es.map (fun e => e - emin))) := by
+  set n := normal rowCos colCos with hnd
+  have hsp' : 0 < sp' := by nlinarith
+  have hmono := pert_mono hsp hn hP
+  have hinj : ∀ e e', dot n (P e) = dot n (P e') → e = e' := by
+    intro e e' h
+    rcases lt_trichotomy e e' with hl | he | hg
+    · have := hmono e e' hl; linarith
+    · exact he
+    · have := hmono e' e hg; linarith
+  match es, hes, hspan with
+  | [e], _, _ =>
+    refine ⟨e, by simp, by simp, ?_⟩
+    unfold volumePositions
+    rw [normHint_pos hsp']
+    simp [defaultSpacing]
+  | e0 :: e1 :: t, _, hspan =>
+    have key : volumePositions ((e0 :: e1 :: t).map P) rowCos colCos (some sp') true
+        = volumePositionsMany ((e0 :: e1 :: t).map P) (P e0) rowCos colCos (some sp') true true := by
+      rw [List.map_cons, List.map_cons, volumePositions_cons2 _ _ _ _ _ _ hsp']
+    rw [key]
+    unfold volumePositionsMany
+    simp only [Bool.not_true, Bool.false_and, Bool.false_eq_true, if_false]
+    by_cases hall : ((e0 :: e1 :: t).map P).all (fun p => p == P e0) = true
+    · rw [if_pos hall]
+      have heq : ∀ e ∈ e0 :: e1 :: t, e = e0 := by
+        intro e he
+        rw [List.all_eq_true] at hall
+        have := hall (P e) (List.mem_map.mpr ⟨e, he, rfl⟩)
+        simp only [beq_iff_eq] at this
+        exact hinj e e0 (by rw [this])
+      refine ⟨e0, by simp, fun e he => le_of_eq (heq e he).symm, ?_⟩
+      have hz : ((e0 :: e1 :: t).map P).map (fun _ => (0 : Int)) = (e0 :: e1 :: t).map (fun e => e - e0) := by
+        rw [List.map_map]
+        apply List.map_congr_left
+        intro e he
+        simp [heq e he]
+      rw [hz]
+      simp only [defaultSpacing]
+    · rw [if_neg hall]
+      obtain ⟨emin, hemin, emax, hemax, hbound, hext⟩ := extremes_mono n P hmono e0 (e1 :: t)
+      refine ⟨emin, hemin, fun e he => (hbound e he).1, ?_⟩
+      simp only [← hnd, hext]
+      have hne : emin < emax := by
+        by_contra hge
+        apply hall
+        rw [List.all_eq_true]
+        intro p hp
+        obtain ⟨e, he, rfl⟩ := List.mem_map.mp hp
+        have h1 := hbound e he
+        have h2 := hbound e0 (by simp)
+        have : e = e0 := by omega
+        simp [this]
+      rw [isPerp_pert hsp hn hP emin emax hne]
+      simp only [if_true]
+      -- the multiples
+      unfold regularMissing
+      have hne0 : (sp' == 0) = false := by simpa using ne_of_gt hsp'
+      simp only [hne0, Bool.false_eq_true, if_false, Bool.and_true]
+      have hmult : ∀ e ∈ e0 :: e1 :: t,
+          roundHalfEven ((dot n (P e) - dot n (P emin)) / sp') = e - emin ∧
+          isClose ((dot n (P e) - dot n (P emin)) / sp') ((e - emin : Int) : Rat) tolSpacing = true := by
+        intro e he
+        exact multiple_pert hsp hn hP sp' h1 h2 emin e (hbound e he).1 (hspan emin hemin e he)
+      have hall2 : ((((e0 :: e1 :: t).map P).map (dot n)).map (fun d => (d - dot n (P emin)) / sp')).all
+          (fun m => isClose m (roundHalfEven m : Rat) tolSpacing) = true := by
+        rw [List.all_eq_true]
+        intro m hm
+        simp only [List.map_map, List.mem_map, Function.comp] at hm
+        obtain ⟨e, he, rfl⟩ := hm
+        obtain ⟨hr, hc⟩ := hmult e he
+        rw [hr]; exact hc
+      rw [hall2]
+      simp only [if_true, rabs_of_pos hsp']
+      congr 3
+      simp only [List.map_map]
+      apply List.map_congr_left
+      intro e he
+      simp only [Function.comp]
+      exact (hmult e he).1
 
 
 end HdVerif.SegGeomLemmas
